@@ -31,6 +31,10 @@ REFERRERS = {
     "gstroke": '<rect {id} x="{x}" y="50" width="20" height="20" fill="none" stroke="url(#{g})" stroke-width="4"/>',
     "use2": '<use xlink:href="#u{k}" x="{x}" y="70"/><use xlink:href="#u{k}" x="{x}" y="82" transform="scale(.5)"/>',
     "useinv": '<use xlink:href="#u{k}" x="{x}" y="70" opacity="0"/>',
+    # a kept translucent group that loses one child while tidying and whose remaining child then fades to nothing
+    # (.02 x .02 rounds to 0 at the default 3 digits): the last user of the gradient disappears LATE
+    "fadegroup": '<g opacity=".02"><rect {id} x="{x}" y="30" width="20" height="20" fill="url(#{g})" opacity=".02"/><rect x="{x}" y="35" width="9" height="9" opacity="0"/></g>',
+    "fadegroupxf": '<g opacity=".02" transform="translate(1 2)"><circle {id} cx="{x}" cy="40" r="8" fill="url(#{g})" opacity=".02"/><rect x="{x}" y="35" width="9" height="0"/></g>',
 }
 # referrers inside containers that only drop_unsupported=True removes (converted with that option)
 DROP_REFERRERS = {
